@@ -14,9 +14,13 @@ func extraEngineFor(prop string, t *testing.T) Engine {
 		return multiEngine{engines: map[string]Engine{"scan": scanEngine{t}, "seq": seqEngine{}}, order: []string{"scan", "seq"}, weights: []int{3, 1}}
 	case "C15":
 		return multiEngine{engines: map[string]Engine{"space": spaceEngine{}, "xfs": xfsEngine{"C15"}}, order: []string{"space", "xfs"}, weights: []int{4, 1}}
+	case "C13":
+		return lockEngine{t}
 	case "C14":
 		return multiEngine{engines: map[string]Engine{"retain": seqEngine{retainMode: true}, "xfs": xfsEngine{"C14"}, "lin": linEngine{t: t, poison: true}},
 			order: []string{"retain", "xfs", "lin"}, weights: []int{5, 3, 2}}
+	case "C18":
+		return multiEngine{engines: map[string]Engine{"golden": goldenEngine{}, "format": formatEngine{}}, order: []string{"golden", "format"}, weights: []int{1, 1}}
 	case "C17":
 		return xfsEngine{"C17"}
 	case "C12":
